@@ -177,46 +177,43 @@ func checkC12(w *World, r *Report) {
 			strings.Join(dedupe(bad), "; "))
 	}
 	// the transfer: payer, payee, amount; the store: same record under its own id
-	for fn := range w.reachableFrom(root) {
-		fr := tm.Root(fn)
-		for _, b := range fn.Blocks {
-			for _, in := range b.Instrs {
-				e := w.EffectOf(in)
-				if e == nil {
-					continue
-				}
-				switch {
-				case e.Kind == EffTransfer:
-					args := in.(ssa.CallInstruction).Common().Args
-					if e.Method != "SendCoins" || len(args) != 4 {
-						r.Fail("CN-EFFECT", "CancelAuction:transfer", w.instrPos(in), "the refund is one SendCoins from the selling escrow to the auctioneer", "unexpected bank call "+e.Method)
-						continue
-					}
-					from, to, amt := tm.OperandAt(fr, in, args[1]), tm.OperandAt(fr, in, args[2]), tm.OperandAt(fr, in, args[3])
-					var bad []string
-					fb := from.Any(func(t *Term) bool { return isField(t, "SellingReserveAddress") && fromColl(t.Args[0], "Auction") })
-					if !fb {
-						bad = append(bad, "payer is "+from.String()+", not the stored auction's selling escrow")
-					}
-					if !to.Any(func(t *Term) bool { return isField(t, "Auctioneer") && fromColl(t.Args[0], "Auction") }) {
-						bad = append(bad, "payee is "+to.String()+", not the stored auction's auctioneer")
-					}
-					ok, why, denom := drainOK(from, amt)
-					if !ok {
-						bad = append(bad, why)
-					} else if !(isField(denom, "Denom") && isField(denom.Args[0], "SellingCoin") && fromColl(denom, "Auction")) {
-						bad = append(bad, "the denomination refunded is "+denom.String()+", not the stored auction's selling denomination")
-					}
-					r.Check(len(bad) == 0, "CN-EFFECT", "CancelAuction:transfer", w.instrPos(in),
-						"the refund moves the selling escrow's whole balance of the selling denomination to the stored auctioneer", strings.Join(bad, "; "))
-				case e.Kind == EffStoreWrite && e.Coll == "Auction" && e.Method == "Set":
-					args := in.(ssa.CallInstruction).Common().Args
-					key, val := tm.OperandAt(fr, in, args[2]), tm.OperandAt(fr, in, args[3])
-					ok := fromColl(val, "Auction") && related(key, recordField(val, "Id", true))
-					r.Check(ok, "CN-EFFECT", "CancelAuction:store", w.instrPos(in), "the record stored is the loaded auction, under its own id",
-						fmt.Sprintf("stored %s under key %s", val.String(), key.String()))
-				}
+	// in the calling context of the message handler: the refund may be written in the operation or in a helper it calls
+	for _, site := range tm.sitesWhere([]*ssa.Function{root}, func(fr *Frame, in ssa.Instruction) bool {
+		e := w.EffectOf(in)
+		return e != nil && (e.Kind == EffTransfer || (e.Kind == EffStoreWrite && e.Coll == "Auction" && e.Method == "Set"))
+	}) {
+		fr, in := site.Fr, site.In
+		e := w.EffectOf(in)
+		switch {
+		case e.Kind == EffTransfer:
+			args := in.(ssa.CallInstruction).Common().Args
+			if e.Method != "SendCoins" || len(args) != 4 {
+				r.Fail("CN-EFFECT", "CancelAuction:transfer", w.instrPos(in), "the refund is one SendCoins from the selling escrow to the auctioneer", "unexpected bank call "+e.Method)
+				continue
 			}
+			from, to, amt := tm.OperandAt(fr, in, args[1]), tm.OperandAt(fr, in, args[2]), tm.OperandAt(fr, in, args[3])
+			var bad []string
+			fb := from.Any(func(t *Term) bool { return isField(t, "SellingReserveAddress") && fromColl(t.Args[0], "Auction") })
+			if !fb {
+				bad = append(bad, "payer is "+from.String()+", not the stored auction's selling escrow")
+			}
+			if !to.Any(func(t *Term) bool { return isField(t, "Auctioneer") && fromColl(t.Args[0], "Auction") }) {
+				bad = append(bad, "payee is "+to.String()+", not the stored auction's auctioneer")
+			}
+			ok, why, denom := drainOK(from, amt)
+			if !ok {
+				bad = append(bad, why)
+			} else if !(isField(denom, "Denom") && isField(denom.Args[0], "SellingCoin") && fromColl(denom, "Auction")) {
+				bad = append(bad, "the denomination refunded is "+denom.String()+", not the stored auction's selling denomination")
+			}
+			r.Check(len(bad) == 0, "CN-EFFECT", "CancelAuction:transfer", w.instrPos(in),
+				"the refund moves the selling escrow's whole balance of the selling denomination to the stored auctioneer", strings.Join(bad, "; "))
+		case e.Kind == EffStoreWrite && e.Coll == "Auction" && e.Method == "Set":
+			args := in.(ssa.CallInstruction).Common().Args
+			key, val := tm.OperandAt(fr, in, args[2]), tm.OperandAt(fr, in, args[3])
+			ok := fromColl(val, "Auction") && related(key, recordField(val, "Id", true))
+			r.Check(ok, "CN-EFFECT", "CancelAuction:store", w.instrPos(in), "the record stored is the loaded auction, under its own id",
+				fmt.Sprintf("stored %s under key %s", val.String(), key.String()))
 		}
 	}
 }
